@@ -281,6 +281,56 @@ def rule_r34(chk, prog, paths):
         for (i, n, c) in emits:
             a = c.args[0]
             if isinstance(a, ast.Name) and a.id == popv:
+                rebound = any(
+                    n_.kind == 'stmt' and isinstance(n_.ast, ast.Assign)
+                    and any(isinstance(t_, ast.Name) and t_.id == popv
+                            for t_ in n_.ast.targets)
+                    and not (isinstance(n_.ast.value, ast.Call)
+                             and unparse(n_.ast.value.func) == f'{work}.pop')
+                    and not isinstance(n_.ast.targets[0], ast.Tuple)
+                    for n_ in p.nodes[:i])
+                if not rebound:
+                    # the element itself, without looking inside: only when
+                    # there is nothing inside (a leaf) or nothing left to
+                    # replace (the map is empty)
+                    okset = ((f'{popv}.is_leaf()', True), (repl, False),
+                             (f'not {repl}', True),
+                             (f'len({repl}) == 0', True),
+                             (f'len({repl}) > 0', False),
+                             (f'{popv}.data', False),
+                             (f'isinstance({popv}.data, str)', True),
+                             # the rebuilt node equals the original
+                             (f'{rebuilt} == {popv}', True),
+                             (f'{popv} == {rebuilt}', True),
+                             (f'{rebuilt} != {popv}', False))
+
+                    def justified(t, pol):
+                        if (t, pol) in okset:
+                            return True
+                        try:
+                            e_ = ast.parse(t, mode='eval').body
+                        except SyntaxError:
+                            return False
+                        if pol and isinstance(e_, ast.BoolOp) and isinstance(
+                                e_.op, ast.Or):
+                            return all(justified(unparse(v_), True)
+                                       for v_ in e_.values)
+                        if not pol and isinstance(
+                                e_, ast.BoolOp) and isinstance(
+                                    e_.op, ast.And):
+                            return all(justified(unparse(v_), False)
+                                       for v_ in e_.values)
+                        return False
+
+                    just = any(justified(t, pol) for (t, pol) in p.facts)
+                    chk.check('C11.R4', where, f'{desc}: element kept '
+                              'without descent', just,
+                              'an inner node is emitted as it is, without '
+                              'descending into it, although the '
+                              'replacement map is not known to be empty: '
+                              'occurrences of the remaining keys below it '
+                              'are not replaced', loc=m.loc(c),
+                              nontrivial=True)
                 continue
             if isinstance(a, ast.Name) and a.id in rvars:
                 continue  # the value taken out of the map, inserted as given
